@@ -1,0 +1,40 @@
+//go:build verif
+
+// Contracts for contract-based deductive verification (checked by /verif/govc).
+// This file is comment-only and compiled only with the build tag "verif".
+
+package libmem
+
+// ---- request construction (used by the policies' memory allocation paths, C04) ------------------------------------
+// A request option only sets the name, priority or type preference of the request it is applied to (type-level
+// contract; the four option closures are proved against it): it never changes the request's id.
+//@ functype RequestOption
+//@   requires arg0 != nil
+//@   modifies arg0.name, arg0.priority, arg0.types, arg0.strict
+//@ func WithPreferredTypes$1 ints=bv64 tags=C04
+//@   requires r != nil
+//@   modifies r.types
+//@ func WithStrictTypes$1 ints=bv64 tags=C04
+//@   requires r != nil
+//@   modifies r.types, r.strict
+//@ func WithPriority$1 ints=bv64 tags=C04
+//@   requires r != nil
+//@   modifies r.priority
+//@ func WithName$1 ints=bv64 tags=C04
+//@   requires r != nil
+//@   modifies r.name
+
+// NewRequest and the convenience constructors build a fresh request that carries the given id.
+//@ func NewRequest ints=bv64
+//@   requires forall i int :: 0 <= i && i < len(options) ==> options[i] != nil
+//@   modifies nothing
+//@   ensures[C04] fresh(result) && result.id == id && result.limit == limit && result.affinity == affinity
+//@ loop 0 in NewRequest at "range options"
+//@   modifies r.name, r.priority, r.types, r.strict
+//@   invariant fresh(r) && r.id == id && r.limit == limit && r.affinity == affinity && (forall i int :: 0 <= i && i < len(options) ==> options[i] != nil)
+//@ func PreservedContainer ints=bv64
+//@   modifies nothing
+//@   ensures[C04] fresh(result) && result.id == id
+//@ func ContainerWithTypes ints=bv64
+//@   modifies nothing
+//@   ensures[C04] fresh(result) && result.id == id
